@@ -158,6 +158,7 @@ def handle (line : String) : String :=
   | "tx" :: toks => runTx toks
   | "sx" :: _ => "abstain"   -- real sidx: oracle only (shape covered by `query_unaffected_by_prepare` etc.)
   | "ss" :: _ => "abstain"   -- real stream table: oracle only
+  | "tq" :: _ => "abstain"   -- real trace table + query pipeline: oracle only
   | _ => "bad-op"
 
 def main : IO Unit := runDriver handle
